@@ -232,6 +232,20 @@ class FullOps(TorchCalls):
             d = self.axis_of(t, dim, node) if dim is not None else 0
             if d is None:
                 return self.unk("split dim", node)
+            sizes = args[0] if args else kwargs.get("split_size_or_sections")
+            if name == "split" and isinstance(sizes, ListV) and sizes.items is not None and all(tv_of(x) is not None and tv_of(x).poly is not None for x in sizes.items):
+                # split([s0, s1, ...], dim): consecutive sections of the given sizes — section i is narrow(dim, s0 + ... + s(i-1), si)
+                out, start = [], Poly.const(0)
+                for i_, x in enumerate(sizes.items):
+                    tx = tv_of(x)
+                    st_ = TV(kind="pyint", dtype="Py", poly=start, origin=tx.origin, deg=F0)
+                    self._tag_variant = i_  # one structural operator per section (they share the call site)
+                    try:
+                        out.append(self.narrow(t, [Const(d), st_, tx], {}, node))
+                    finally:
+                        self._tag_variant = None
+                    start = start + tx.poly
+                return ListV(items=tuple(out), kind="tuple")
             tag = t.axes[d]
             # consecutive blocks of an axis: each block is a subset of its positions; mapping over the blocks and
             # concatenating the results restores the axis
@@ -493,7 +507,12 @@ class FullOps(TorchCalls):
             org = frozenset(o if o.endswith("#meta") else o + "#meta" for o in a0.origin)
             if fn in ("rand_like", "randn_like"):
                 p, q = "R" not in a0.axes, "C" not in a0.axes
-                return TV(kind=kind, axes=a0.axes, p=p, q=q, s=q, z=q, deg=F0, dtype=dtype, origin=org, rng=True)
+                if not p:
+                    self.clear("p", "random draw laid out along the row axis", node)
+                if not q:
+                    self.clear("q", "random draw laid out along the column axis", node)
+                # rand_like(x) is rand(x.shape, dtype=x.dtype, device=x.device): the same structural operator
+                return self.tag(TV(kind=kind, axes=a0.axes, p=p, q=q, s=q, z=q, deg=F0, dtype=dtype, origin=org, rng=True), fn[:-5], node, axes=list(a0.axes))
             if fn == "full_like":
                 ft = tv_of(args[1] if len(args) > 1 else kwargs.get("fill_value"))
                 return TV(kind=kind, axes=a0.axes, deg=ft.deg if ft else None, dtype=dtype, origin=org, poly=ft.poly if ft else None)
